@@ -832,6 +832,113 @@ fn search_term(t: &T, seed: u64, per: usize, st: &mut Stats) {
     }
 }
 
+/// Arithmetic chains that reach the algebra solver (compile/algebra.rs algebraic_inverse): every chain
+/// of 2 steps and chains of 3 steps over steps x -> m*x + k with every sign / magnitude class of the
+/// net slope and zero / non-zero net constant; exact on the (binary) inputs used.  Numbers only: on
+/// characters the re-derivation is the known finding C03-algebra-chars.
+const ARITH: &[(&str, f64, f64)] = &[
+    ("+1", 1.0, 1.0), ("-1", 1.0, -1.0), ("+2", 1.0, 2.0), ("-2", 1.0, -2.0),
+    ("×2", 2.0, 0.0), ("÷2", 0.5, 0.0), ("×¯2", -2.0, 0.0), ("÷¯2", -0.5, 0.0),
+    ("¯", -1.0, 0.0), ("¬", -1.0, 1.0), ("˜-5", -1.0, 5.0), ("×¯1", -1.0, 0.0),
+];
+
+fn slope_class(b: f64, c: f64) -> usize {
+    let sc = if b > 1.0 { 0 } else if b == 1.0 { 1 } else if b > 0.0 { 2 } else if b > -1.0 { 3 } else if b == -1.0 { 4 } else { 5 };
+    sc * 2 + if c == 0.0 { 0 } else { 1 }
+}
+
+/// returns (chains run, chains without an inverse, chains per class [slope >1, =1, (0,1), (-1,0), =-1, <-1] x [c = 0, c != 0])
+fn search_arith(r: &mut Rng, three_step_sample: usize, st: &mut Stats) -> (usize, usize, [usize; 12]) {
+    let mut chains: Vec<Vec<usize>> = Vec::new();
+    for a in 0..ARITH.len() {
+        for b in 0..ARITH.len() {
+            chains.push(vec![a, b]);
+        }
+    }
+    let mut three: Vec<Vec<usize>> = Vec::new();
+    for a in 0..ARITH.len() {
+        for b in 0..ARITH.len() {
+            for c in 0..ARITH.len() {
+                three.push(vec![a, b, c]);
+            }
+        }
+    }
+    for i in (1..three.len()).rev() {
+        let j = r.below(i + 1);
+        three.swap(i, j);
+    }
+    three.truncate(three_step_sample.min(three.len()));
+    chains.extend(three);
+    let inputs = ["5", "[0 1 ¯3]", "[2_4 6_8]", "=1[1 0 1]", "¯0.5"];
+    let mut classes = [0usize; 12];
+    let (mut ran, mut noinv) = (0, 0);
+    for ch in chains {
+        let (mut b, mut c) = (1.0f64, 0.0f64);
+        let mut parts: Vec<&str> = Vec::new();
+        for &i in &ch {
+            let (src, m, k) = ARITH[i];
+            b *= m;
+            c = m * c + k;
+            parts.push(src);
+        }
+        parts.reverse(); // source is written right to left
+        let fsrc = parts.join("");
+        classes[slope_class(b, c)] += 1;
+        ran += 1;
+        let res = fresh_thread(move || {
+            let mut st = Stats::default();
+            let name = format!("directed:arith:{fsrc}");
+            let usrc = format!("°({fsrc})");
+            if compile(&format!("# Experimental!\n{usrc}\n"), uiua::PreEvalMode::Lazy).is_err() {
+                st.no_inverse += 1;
+                return st;
+            }
+            for xs in inputs {
+                let Ok(x) = run_uiua(xs) else { continue };
+                st.evals += 1;
+                let Ok(y) = run_uiua_with(&format!("({fsrc})"), &x) else { continue };
+                st.in_dom += 1;
+                // the model of the chain itself: y = b*x + c (guards the bookkeeping of the classes)
+                match run_uiua_with(&usrc, &y) {
+                    Ok(x2) => {
+                        st.left_checked += 1;
+                        if !same(&x2, &x) {
+                            viol("left", &name, &usrc, &x, &format!("°F F x = {} but x = {} (net slope {b}, constant {c})", show(&x2), show(&x)));
+                        }
+                    }
+                    Err(e) => viol("left", &name, &usrc, &x, &format!("°F fails on F x = {}: {e}", show(&y))),
+                }
+                match run_uiua_with(&format!("({fsrc}) {usrc}"), &y) {
+                    Ok(y2) => {
+                        st.right_checked += 1;
+                        if !same(&y2, &y) {
+                            viol("right", &name, &fsrc, &x, &format!("F °F y = {} but y = {} (net slope {b}, constant {c})", show(&y2), show(&y)));
+                        }
+                    }
+                    Err(e) => viol("right", &name, &fsrc, &x, &format!("F °F fails on y = {}: {e}", show(&y))),
+                }
+                match run_uiua_with(&format!("°°({fsrc})"), &x) {
+                    Ok(y2) => {
+                        st.unun_checked += 1;
+                        if !same(&y2, &y) {
+                            viol("unun", &name, &fsrc, &x, &format!("°°F x = {} but F x = {}", show(&y2), show(&y)));
+                        }
+                    }
+                    Err(e) => viol("unun", &name, &fsrc, &x, &format!("°°F fails where F succeeds: {e}")),
+                }
+            }
+            st
+        });
+        noinv += res.no_inverse;
+        st.evals += res.evals;
+        st.in_dom += res.in_dom;
+        st.left_checked += res.left_checked;
+        st.right_checked += res.right_checked;
+        st.unun_checked += res.unun_checked;
+    }
+    (ran, noinv, classes)
+}
+
 /// Directed families around un-join (JoinPat): functions written literally with the inputs given as
 /// uiua source (pushed by running it).  The engine's convention (un.rs JoinPat invert_inner, since
 /// 2e21ff6): a bare `⊙⊂` link of a chain of joins gives its part back as a one-row list, every other
@@ -1042,6 +1149,10 @@ fn main() {
             search_anti(r.next(), (n / 40).max(20), &mut st);
             let directed = search_directed(&mut st);
             println!("{{\"directed\":true,\"programs\":{directed}}}");
+            let (ran, noinv, classes) = search_arith(&mut r, (n / 12).max(300), &mut st);
+            println!(
+                "{{\"arith\":true,\"chains\":{ran},\"without_inverse\":{noinv},\"chains_by_class_slope_gt1_eq1_0to1_m1to0_eqm1_ltm1_x_const_zero_nonzero\":{classes:?}}}"
+            );
             println!(
                 "{{\"summary\":true,\"terms\":{},\"evaluations\":{},\"in_domain\":{},\"outside_domain_skipped\":{},\"left_checked\":{},\"right_checked\":{},\"right_range_checked\":{},\"unun_checked\":{},\"unun_node_agree\":{},\"unun_node_differ\":{},\"anti_checked\":{},\"anti_both_fail\":{},\"join_chain_terms_skipped\":{},\"no_inverse\":{},\"compile_fail\":{},\"terms_by_depth\":{:?},\"values_by_kind_num_byte_char_complex_box\":{:?},\"values_by_rank\":{:?}}}",
                 terms.len(), st.evals, st.in_dom, st.out_dom, st.left_checked, st.right_checked, st.right_random_checked, st.unun_checked,
